@@ -40,6 +40,9 @@ type Conf struct {
 	OmitValidity bool
 	KeyLabel     string // "key_label" of the handler configuration (omitted when empty)
 	RawValidity  any    // if non-nil: the value of "cert_validity_sec" as it stands in the file (any JSON type)
+	// Siblings: the configuration file also holds sections of other handlers, among them ones whose name differs from
+	// the regular handler's in case only; none of them is the regular handler's section
+	Siblings bool
 }
 
 // GensignConfig builds the real configuration object from JSON text, as the binary does.
@@ -54,7 +57,18 @@ func GensignConfig(c Conf) (*config.GensignConfig, string, error) {
 	if c.KeyLabel != "" {
 		h["key_label"] = c.KeyLabel
 	}
-	doc := map[string]any{"handlers": map[string]any{regular.HandlerName: h}}
+	hs := map[string]any{regular.HandlerName: h}
+	if c.Siblings {
+		wrong := func() map[string]any {
+			return map[string]any{"enable": true, "pub_key_dir": c.PubKeyDir, "cert_validity_sec": 7, "key_identifiers": map[string]string{"default": "wrong-slot", "rsa": "wrong-slot", "ecdsa": "wrong-slot", "ed25519": "wrong-slot", "dsa": "wrong-slot", "unknown": "wrong-slot"}, "key_label": "wrong"}
+		}
+		for _, n := range []string{strings.ToUpper(regular.HandlerName), strings.ToLower(regular.HandlerName), strings.Title(regular.HandlerName), regular.HandlerName + "2", "Other.Handler"} {
+			if n != regular.HandlerName {
+				hs[n] = wrong()
+			}
+		}
+	}
+	doc := map[string]any{"handlers": hs}
 	b, err := json.Marshal(doc)
 	if err != nil {
 		return nil, "", err
